@@ -151,6 +151,10 @@ pub fn record_c17(a: &Args) -> usize {
         let (ccap, ocap) = caps[(sc / 2 + sc) % 5];
         ctl_st.borrow_mut().write_cap = ccap;
         odk_st.borrow_mut().write_cap = ocap;
+        // ... and whose reads and writes are interrupted now and then (EINTR: the call is simply to be repeated)
+        let (cint, oint) = [(None, None), (Some(3), None), (None, Some(2)), (Some(7), Some(5)), (Some(2), Some(3))][(sc + sc / 5) % 5];
+        ctl_st.borrow_mut().intr_every = cint;
+        odk_st.borrow_mut().intr_every = oint;
         out.emit(json!({"e": "twinstart", "me": me, "signs": desc.iter().map(|(a, f)| json!({"addr": a, "flip": flip_name(*f)})).collect::<Vec<_>>()}));
 
         let flush = |out: &mut TraceOut| {
